@@ -285,11 +285,17 @@ def r_filter(ctx):
                 elif p and needle[0] == 'bin' and needle[1] == '*':
                     found['run'] += 1
                     a, b = needle[2], needle[3]
-                    cnt = b if a[0] == 'iter' else a
-                    letter = a if a[0] == 'iter' else b
+                    a_is_letter = a[0] == 'iter' or (a[0] == 'sub' and a[1] == ('c', 'ACGT'))
+                    cnt = b if a_is_letter else a
+                    letter = a if a_is_letter else b
                     ca = affine(cnt)
                     r = ('attr', ('v', 'self', 'P'), 'max_homopolymer_runs')
-                    okr = ca is not None and aff_eq(ca, {r: 1, 1: 1}) and letter[0] == 'iter' and letter[1] == ('c', 'ACGT')
+                    # a letter of ACGT: the element of an iteration over "ACGT", or "ACGT"[i] for i in range(4)
+                    is_letter = (letter[0] == 'iter' and letter[1][0] == 'c' and isinstance(letter[1][1], str) and
+                                 sorted(letter[1][1]) == sorted('ACGT')) or \
+                        (letter[0] == 'sub' and letter[1] == ('c', 'ACGT') and letter[2][0] in ('iter', 'idx') and
+                         (letter[2][1] == ('c', 'ACGT') or (is_call(letter[2][1], 'builtins.range') and letter[2][1][2] == (('c', 4),))))
+                    okr = ca is not None and aff_eq(ca, {r: 1, 1: 1}) and is_letter
                     run.check(okr, 'R-FILTER', f, 'run-pattern=r+1', nd.lineno, 'forbidden run is r+1 equal letters of ACGT',
                               'the forbidden homopolymer pattern is %s; required letter * (max_homopolymer_runs + 1) for each '
                               'letter of ACGT' % show(needle)[:80], inputs='runs of exactly r or r+1 letters')
@@ -323,11 +329,20 @@ def r_filter(ctx):
     # cannot decide
     scope = f.module.tree
     consts = {n_ for n_, v_ in f.module.globals.items() if isinstance(v_, ast.Constant) and v_.value == 'ACGT'}
+    # local names bound to the alphabet anywhere in the class
+    for a_ in ast.walk(scope):
+        if isinstance(a_, ast.Assign) and isinstance(a_.value, ast.Constant) and a_.value.value == 'ACGT':
+            consts |= {t_.id for t_ in a_.targets if isinstance(t_, ast.Name)}
 
     def is_alpha_node(x):
         return (isinstance(x, ast.Constant) and x.value == 'ACGT') or (isinstance(x, ast.Name) and x.id in consts)
     char_ing = any(isinstance(c_, ast.Compare) and any(isinstance(o, (ast.In, ast.NotIn)) for o in c_.ops) and
-                   any(is_alpha_node(x) for x in c_.comparators) for c_ in ast.walk(scope))
+                   any(is_alpha_node(x) for x in c_.comparators) for c_ in ast.walk(scope)) or \
+        any(isinstance(c_, ast.Call) and isinstance(c_.func, ast.Attribute) and c_.func.attr in ('find', 'index', 'count', 'issubset',
+                                                                                                 'issuperset', 'translate', 'strip')
+            and (is_alpha_node(c_.func.value) or any(is_alpha_node(a_) for a_ in c_.args)) for c_ in ast.walk(scope)) or \
+        any(isinstance(c_, ast.Call) and isinstance(c_.func, ast.Name) and c_.func.id in ('set', 'frozenset') and
+            any(is_alpha_node(a_) for a_ in c_.args) for c_ in ast.walk(scope))
     rev_names = set()
     for a_ in ast.walk(scope):
         if isinstance(a_, ast.Assign) and len(a_.targets) == 1 and isinstance(a_.targets[0], ast.Name):
@@ -388,6 +403,14 @@ def r_filter(ctx):
                     okc = True       # self.<cfg> is not None
                 elif atom[0] == 'cmp' and atom[1] in ('<', '<=') and (is_call(atom[2], 'builtins.len') or is_call(atom[3], 'builtins.len')):
                     okc = True       # window arm / short arm
+                elif atom[0] == 'cmp' and atom[1] in ('<', '<=', '==', '!=') and any(is_call(x_, 'builtins.len') for x_ in walk_term(atom)) \
+                        and not any(x_[0] == 'call' and x_[1][0] == 'attr' and x_[1][2] in ('count', 'find', 'index') for x_ in walk_term(atom)):
+                    okc = True       # the same split written as an arithmetic form of the length (len(s) - k >= 0)
+                elif atom[0] == 'bool' and all(
+                        (x_[0] == 'cmp' and x_[1] in ('is', 'is not') and x_[3] == NONE and x_[2][0] == 'attr') or
+                        (x_[0] == 'cmp' and x_[1] in ('<', '<=') and (is_call(x_[2], 'builtins.len') or is_call(x_[3], 'builtins.len')))
+                        for x_ in atom[2:]):
+                    okc = True       # a compound of the two: `cfg is not None and len(s) >= k` negated as a whole
                 else:
                     okc = False
                     break
@@ -686,6 +709,31 @@ def check_windows(ctx, f, judged, k):
                 okarm = True        # k <= len(s)
             if atom[0] == 'cmp' and is_call(atom[2], 'builtins.len') and atom[3] == k and atom[1] == '<' and not pol:
                 okarm = True        # not (len(s) < k)
+        if not okarm:
+            # any other way of writing the selection (len(s) - k >= 0, not len(s) < k, k - 1 < len(s) ...): the conditions that
+            # speak about the length and the window are evaluated on a grid; the arm must be taken exactly when len(s) >= k
+            rel = [(a_, p_) for a_, p_ in ctx.conds(f, nd) if any(x == k for x in walk_term(a_)) and
+                   any(is_call(x, 'builtins.len') for x in walk_term(a_))]
+            verdict = None
+            if rel:
+                verdict = True
+                for nv in range(0, 7):
+                    for kv in range(1, 5):
+                        vals = [feval(a_, lambda x, nv=nv, kv=kv: kv if x == k else (nv if is_call(x, 'builtins.len') else UNKNOWN))
+                                for a_, p_ in rel]
+                        if any(v is UNKNOWN for v in vals):
+                            verdict = None
+                            break
+                        taken = all(bool(v) == p_ for v, (a_, p_) in zip(vals, rel))
+                        if taken != (nv >= kv):
+                            verdict = False
+                    if verdict is None:
+                        break
+            if verdict is True:
+                okarm = True
+            elif verdict is None:
+                run.undecided('R-FILTER', f, 'window-arm-iff-len>=k', nd.lineno, 'how the window arm is selected is not evaluable')
+                return
         run.check(okarm, 'R-FILTER', f, 'window-arm-iff-len>=k', nd.lineno, 'window arm taken iff len(s) >= k',
                   'the window arm is not selected by len(s) >= k', inputs='strings exactly one window long')
         return
